@@ -307,7 +307,7 @@ def main():
                 reasons.append(f"path-replay validation of {res['harness']} crashed: {(err or '')[-300:]}")
                 continue
             for tr, nr in zip(res["traces"], nres):
-                if nr.get("panic") or nr.get("failures") or nr.get("assume_violated") or nr.get("trace") != tr["log"]:
+                if nr.get("panic") or nr.get("failures") or nr.get("assume_violated") or (nr.get("trace") or []) != (tr["log"] or []):
                     mismatches.append({"harness": res["harness"], "inputs": tr["inputs"], "symbolic": tr["log"],
                                        "native": nr.get("trace"), "panic": nr.get("panic"), "failures": nr.get("failures"),
                                        "assume": nr.get("assume_violated")})
